@@ -156,10 +156,10 @@ func c11(run *ev.Run) {
 	explorePhases(run, w, []phase{
 		{"chain-time-ahead-of-wall-clock", []chainsim.Action{unlock(w, "c0", "m0"), unlock(w, "c1", "m0"), lock(w, "c0", "m0", 10), collect(w, "c0", "m0"), payFees(w, 0, "m0", 0, "c2", 7)},
 			[][]chainsim.Action{future}, 2, secs(run, 10, 20)},
-		{"storage", sacts, [][]chainsim.Action{sroot}, run.Pick(3, 4), secs(run, 30, 200)},
-		{"fresh-core", core, [][]chainsim.Action{rootRegister(w)}, run.Pick(4, 5), secs(run, 40, 400)},
-		{"fresh-full", acts, [][]chainsim.Action{rootRegister(w)}, run.Pick(2, 4), secs(run, 20, 200)},
-		{"staked-with-rewards", append(acts, extra...), [][]chainsim.Action{mid}, run.Pick(3, 4), secs(run, 40, 300)},
+		{"storage", sacts, [][]chainsim.Action{sroot}, run.Pick(3, 4), secs(run, 30, 120)},
+		{"fresh-core", core, [][]chainsim.Action{rootRegister(w)}, run.Pick(4, 5), secs(run, 40, 250)},
+		{"fresh-full", acts, [][]chainsim.Action{rootRegister(w)}, run.Pick(2, 4), secs(run, 20, 150)},
+		{"staked-with-rewards", append(acts, extra...), [][]chainsim.Action{mid}, run.Pick(3, 4), secs(run, 40, 250)},
 	}, stakeMonitor)
 }
 
@@ -222,9 +222,9 @@ func c23(run *ev.Run) {
 	sa = append(sa, sCall(w, "owner", "kill_validator", "v0"), sCall(w, "c2", "kill_validator", "v0"), sCall(w, "owner", "kill_blobber", "b1"),
 		sCall(w, "c3", "shutdown_blobber", "b1"), sCall(w, "owner", "kill_validator", "b0"), sUnlock(w, "c0", "b0"), sLock(w, "c2", "v0", 1e8))
 	explorePhases(run, w, []phase{
-		{"kill-full", ka, [][]chainsim.Action{rootStaked(w), withRewards}, run.Pick(3, 4), secs(run, 40, 400)},
+		{"kill-full", ka, [][]chainsim.Action{rootStaked(w), withRewards}, run.Pick(3, 4), secs(run, 40, 250)},
 		{"kill-core", core, [][]chainsim.Action{withRewards}, run.Pick(4, 5), secs(run, 40, 250)},
-		{"storage", sa, [][]chainsim.Action{sroot}, run.Pick(3, 4), secs(run, 30, 200)},
+		{"storage", sa, [][]chainsim.Action{sroot}, run.Pick(3, 4), secs(run, 30, 120)},
 	}, killMonitor, storageKillMonitor)
 }
 
